@@ -47,8 +47,8 @@ claim("C15", "Proof that the 8 dihedral maps and the rotation/reflection with ar
       assumptions=["cos^2+sin^2=1, cos 0=1, sin 0=0 for the uninterpreted trigonometric functions"])
 claim("C06", "Bounded stand-in only so far (labelled bounded): on tiny instances every mask-generated and every brute-force feasible solution must be accepted by check_solution_validity and every single-edit corruption found infeasible by an independent oracle must be rejected.",
       level="exploration", note="Bounded run-time contract check, not a proof.")
-claim("C07", "Mixed: proof for SMTWTPEnv (_reset/_step/_get_reward: the dummy node is never scheduled, one job leaves the mask per step, done iff none left, reward = minus weighted tardiness with cumulative completion times) plus a bounded stand-in for FJSP/JSSP/FFSP (exhaustive enumeration of all mask-admitted sequences on tiny instances against an independent dispatch simulation).",
-      level="other", note="SMTWTP proved; FJSP/JSSP/FFSP bounded run-time contract check.",
+claim("C07", "Mixed: proof for SMTWTPEnv (_reset/_step/_get_reward) and for the loop-free building blocks of FJSPEnv (clock transition, scheduling of one operation, availability mask in both no-op modes, action translation, makespan reward; inherited by JSSPEnv) plus a bounded stand-in for the composed FJSP/JSSP/FFSP episodes (exhaustive enumeration of all mask-admitted sequences on tiny instances against an independent dispatch simulation).",
+      level="other", note="SMTWTP and FJSP building blocks proved; FJSPEnv._step composition (masked_select + while loop), JSSP mask and FFSP bounded run-time contract check.",
       explanation="SMTWTPEnv methods are proved by tvc (obligations/discharged count those); FJSPEnv, JSSPEnv, FFSPEnv are covered by the bounded stand-in sched_episodes (labelled bounded, not counted as proved).")
 claim("C10", "Bounded stand-in only so far (labelled bounded): process_logits / top-k / top-p / greedy / sampling against a float64 reference over the exhaustive value grid and random families stated in the evidence.",
       level="exploration", note="Bounded run-time contract check, not a proof.")
